@@ -552,6 +552,9 @@ def r05_5(ctx: Ctx, closure: Dict[str, Func]) -> None:
 
 
 def run(ctx: Ctx) -> None:
+    shared.strict_reads(ctx, "R05.6")
+    from . import c20
+    c20.r20_1(ctx, rule="R05.7")
     r05_4(ctx)
     closure = read_closure(ctx)
     ctx.extra["closure_size"] = len(closure)
